@@ -392,3 +392,30 @@ Proof.
   { induction evs as [|e r IH]; intros s H; [exact H|]. cbn [fold_left]. apply IH. apply pc_step_inv. exact H. }
   apply G. cbn. discriminate.
 Qed.
+
+(* ---------------------------------------------------------------------------------------- *)
+(* peer death reaches Session.Close                                                           *)
+(* ---------------------------------------------------------------------------------------- *)
+(* every epoll event that carries the hang-up bit calls onRemoteClose, whatever else it carries (data to read,
+   write readiness) and whatever a read on the fd would find (data, EAGAIN, EOF or an error such as ECONNRESET) *)
+Lemma peer_death_closes_session : forall e rr, EventConn.ev_rdhup e = true -> closes_session e rr = true.
+Proof.
+  intros e rr H. unfold closes_session, closes_session_with, EventConn.handle_event. rewrite H. reflexivity.
+Qed.
+
+(* ... and Session.Close releases a parked reader in every stream state *)
+Lemma peer_death_releases : forall e rr evs, EventConn.ev_rdhup e = true ->
+  closes_session e rr = true /\
+  (let s := run (evs ++ [SClose]) init in rd s = RParked -> wake_enabled s = true).
+Proof.
+  intros e rr evs H. split; [apply peer_death_closes_session; assumption|].
+  intros s Hr. apply (session_close_releases (evs ++ [SClose]) Hr).
+  subst s. unfold run. rewrite fold_left_app. cbn [fold_left]. unfold step; cbn [step_gen]. reflexivity.
+Qed.
+
+(* an EOF found by onReadReady closes too (an orderly shutdown seen without the hang-up bit) *)
+Lemma eof_closes_session : forall e, EventConn.ev_rdhup e = false -> EventConn.ev_in e = true -> closes_session e RdEOF = true.
+Proof.
+  intros e H1 H2. unfold closes_session, closes_session_with, EventConn.handle_event. rewrite H1, H2.
+  destruct (EventConn.ev_out e); reflexivity.
+Qed.
